@@ -207,6 +207,10 @@ def handle (x : Sexp) : Sexp :=
       | .ok (out, st') => ok (.list [encReadOut out, encRState st'])
       | .error e => encAmpErr e)
     | _, _, _, _ => bad "amp_read"
+  | .list [.atom "amp_text", .atom text] =>
+    (match Amp.readAmpText text with
+    | .ok ts => ok (.list [.list (ts.map encAStmtT), bool (readAmp text).toOption.isSome])
+    | .error e => tag "err" [.atom "ParseError", .atom e])
   | .list [.atom "emit_amp", n, fs] => match decGNodeA n, fs.asStrs with
     | some n, some fs => (match emitAmp Gen.knownSpinFactors n fs with
       | .ok a => ok (encAmpOut a)
